@@ -109,11 +109,14 @@ pub fn at(root: &VfsPath, p: &str) -> Result<VfsPath, VfsError> {
 }
 
 pub fn time_of(secs: i64, nanos: u32) -> SystemTime {
-    if secs >= 0 {
-        SystemTime::UNIX_EPOCH + Duration::new(secs as u64, nanos)
+    // (checked: values the platform cannot represent fall back to the epoch instead of panicking
+    // inside the harness)
+    let t = if secs >= 0 {
+        SystemTime::UNIX_EPOCH.checked_add(Duration::new(secs as u64, nanos))
     } else {
-        SystemTime::UNIX_EPOCH - Duration::new((-secs) as u64, 0) + Duration::new(0, nanos)
-    }
+        SystemTime::UNIX_EPOCH.checked_sub(Duration::new(secs.unsigned_abs(), 0)).and_then(|t| t.checked_add(Duration::new(0, nanos)))
+    };
+    t.unwrap_or(SystemTime::UNIX_EPOCH)
 }
 
 macro_rules! tryv {
